@@ -17,12 +17,20 @@ from harness import common, envprops, materialize as mat, shapes as shp  # noqa
 def main() -> None:
     corpus = os.path.join(VERIF, "corpus")
     regen = "--regen" in sys.argv
-    if regen:
+    add = "--add" in sys.argv        # only write the programs that are not in the corpus yet
+    if regen or add:
+        import copy
+        inl = [copy.deepcopy(x) for x in shp.core_shapes() if x.name in ("rtinline", "rtchain")]
+        for x in inl:
+            x.real["inline_call_args"] = True
+            x.name += "_inl"
         for s in shp.core_shapes() + shp.vtype_shapes(["bool", "tuple", "date", "dataclass", "dict"]) + \
-                [x for x in shp.load_shapes() if "load-before-producer" not in x.tags]:
+                [x for x in shp.load_shapes() if "load-before-producer" not in x.tags] + inl + shp.graph_shapes() + shp.tworoot_shapes():
             for layout in (["one", "split"] if s.name in ("chain", "shared", "ld_df") else ["one"]):
                 name = "gen_%s_%s" % (s.name, layout)
                 d = os.path.join(corpus, name)
+                if add and os.path.isdir(d):
+                    continue
                 shutil.rmtree(d, ignore_errors=True)
                 prog = {"body": {f: 0 for f in s.funs}, "cos": {f: 0 for f in s.funs}, "vval": {v: 0 for v in s.vars},
                         "arg": [[f, i + 1, 0] for f in s.funs for (i, st) in enumerate(s.stmts[f]) if st["a"] in ("const", "kw", "runtime")],
